@@ -40,6 +40,7 @@ Json Scenario::to_json() const {
 	j.set("stdin_closed", stdin_closed).set("sigchld_ignored", sigchld_ignored);
 	j.set("sigterm_inherited", sigterm_inherited).set("stdin_stays_open", stdin_stays_open);
 	j.set("output_symlink", output_symlink).set("heap_fill", heap_fill);
+	{ Json ti = Json::arr(); for (auto &t : term_immune) ti.push(Json::obj().set("stage", stage_name[t.first]).set("occ", t.second)); j.set("term_immune", ti); }
 	{ Json pd = Json::arr(); for (auto &d : path_decoys) pd.push(d); j.set("path_decoys", pd); }
 	j.set("stray_exit_step", stray_exit_step);
 	j.set("stray_status", stray_status);
@@ -93,6 +94,8 @@ bool Scenario::from_json(const Json &j, Scenario &s) {
 	s.stdin_stays_open = j.getb("stdin_stays_open");
 	s.output_symlink = j.getb("output_symlink");
 	s.heap_fill = (int)j.geti("heap_fill", 0);
+	if (const Json *ti = j.get("term_immune"))
+		for (auto &t : ti->a) { int k = 0; std::string st = t.gets("stage"); for (int i = 0; i < NSTAGE; i++) if (st == stage_name[i]) k = i; s.term_immune.emplace_back(k, (int)t.geti("occ")); }
 	if (const Json *pd = j.get("path_decoys")) for (auto &d : pd->a) s.path_decoys.push_back(d.s);
 	s.stray_exit_step = (int)j.geti("stray_exit_step", -1);
 	s.stray_status = (int)j.geti("stray_status");
@@ -239,6 +242,7 @@ static Scenario minimise(Scenario sc, const std::string &cls, const Outcome &fir
 		if (sc.stdin_stays_open) { Scenario t = sc; t.stdin_stays_open = false; attempt(t); }
 		if (sc.output_symlink) { Scenario t = sc; t.output_symlink = false; attempt(t); }
 		if (sc.heap_fill) { Scenario t = sc; t.heap_fill = 0; attempt(t); }
+		for (size_t i = 0; i < sc.term_immune.size();) { Scenario t = sc; t.term_immune.erase(t.term_immune.begin() + i); if (!attempt(t)) i++; }
 		for (size_t i = 0; i < sc.path_decoys.size();) { Scenario t = sc; t.path_decoys.erase(t.path_decoys.begin() + i); if (!attempt(t)) i++; }
 		for (size_t i = 0; i < sc.faults.size(); i++) if (sc.faults[i].persistent) { Scenario t = sc; t.faults[i].persistent = false; attempt(t); }
 		for (size_t i = 0; i < sc.plans.size();) { Scenario t = sc; t.plans.erase(t.plans.begin() + i); if (!attempt(t)) i++; }
